@@ -145,3 +145,19 @@ func RuneAt(s string, i int) rune
 
 // RuneSource: the input rune a (case-mapped) result rune derives from.
 func RuneSource(r rune) rune
+
+// ---- schema documents through the real parser (C13) ----
+
+// DocBytes: the bytes of a (sub)document, to hand to json.Unmarshal / UnmarshalJSON methods.
+func DocBytes(doc int, path string) []byte
+
+// DocAlias: a view of doc in which, at every object level, viewKey reads base's baseKey (pairs
+// viewKey, baseKey) and base's baseKey itself is not visible: the same document re-spelled.
+func DocAlias(doc int, pairs ...string) int
+
+// DocWrapArray: the document [x] where x is the node at path of doc.
+func DocWrapArray(doc int, path string) int
+
+// SameParsed: structural equality of two parsed values (symbolic leaves by term), ignoring
+// the named struct fields.
+func SameParsed(a, b any, ignoreFields ...string) bool
